@@ -53,6 +53,14 @@ theorem constants_sound :
     1 ≤ Gen.socketMaxIoChunk ∧ 1 ≤ Gen.pipeMaxIoChunk :=
   ⟨hdrSize_eq, one_lt_flagRange, flusher_pos, hdr_le_chunk.1, hdr_le_chunk.2, chunk_pos.1, chunk_pos.2⟩
 
+/-- the code's retry list is exactly the platform's would-block errnos (from the `errno` module), and the
+interpreter's exception class relations are the ones the model's fatal/retry branches are written for -/
+theorem retry_list_sound :
+    (Gen.retryErrnos.contains Gen.eagain = true ∧ Gen.retryErrnos.contains Gen.ewouldblock = true ∧
+     Gen.retryErrnos.all (fun e => e == Gen.eagain || e == Gen.ewouldblock) = true) ∧
+    (Gen.timeoutIsSocketError = true ∧ Gen.socketErrorIsEnvironmentError = true ∧ Gen.eofErrorIsSocketError = false) :=
+  ⟨retry_errnos_are_wouldblock, exception_classes⟩
+
 /-! ### (2) `stream.read(n)`: exactly the next `n` bytes, or `EOFError` + closed, or still waiting -/
 
 /-- For EVERY script: `read(n)` returns exactly the next `n` bytes of the stream and leaves the rest,
@@ -275,7 +283,7 @@ is met by the following `read` (kernel probes in the evidence); these poll-error
 invalidated by the application itself, which is outside "a transport that ends or fails". -/
 theorem poll_outcome (d : DState) :
     (∃ b, (dPoll d).1 = .ok b) ∨ ((dPoll d).1 = .eof ∧ (dPoll d).2.r.closed = true) ∨
-    (dPoll d).1 = .oserr ∨ (dPoll d).1 = .starved ∨ (dPoll d).1 = .other .notModelled :=
+    (dPoll d).1 = .oserr ∨ (dPoll d).1 = .starved :=
   dPoll_outcome d
 
 /-- a healthy open socket stream to start the witnesses below from -/
@@ -304,12 +312,22 @@ theorem close_failure_is_not_eof_closed :
 
 /-! ### the clause "whatever transient would-block or timeout conditions it reports", socket vs. pipe -/
 
-/-- an event that is not a failure by the statement's wording: data, a timeout, a would-block -/
+/-- an event that is not a failure by the statement's wording: data, a timeout, a would-block — the
+platform's `errno.EAGAIN` / `errno.EWOULDBLOCK` as the `errno` module gives them, NOT rpyc's own retry list -/
 def transient : RecvEv → Bool
   | .chunk k => decide (1 ≤ k)
   | .timeout => true
-  | .err e => retryErrno e
+  | .err e => e == Gen.eagain || e == Gen.ewouldblock
   | .eof => false
+
+/-- what the code retries covers what the statement calls transient (rests on `retry_errnos_are_wouldblock`) -/
+theorem transient_is_retried (e : Nat) (h : (e == Gen.eagain || e == Gen.ewouldblock) = true) : retryErrno e = true := by
+  have hc := retry_errnos_are_wouldblock
+  unfold retryErrno
+  simp only [Bool.or_eq_true, beq_iff_eq] at h
+  rcases h with h | h <;> subst h
+  · rw [hc.1]; rfl
+  · rw [hc.2.1]; rfl
 
 /-- the clause at full strength for a stream class: under any script of transient events with enough data
 events, `read(n)` returns the next `n` bytes -/
@@ -325,11 +343,13 @@ theorem C05_transients_socket : C05_transients_statement true := by
     rw [List.all_eq_true] at hb ⊢
     intro ev hev
     have := hb ev hev
-    cases ev <;> simp_all [benign, transient]
+    cases ev with
+    | err e => exact by simpa [benign] using transient_is_retried e (by simpa [transient] using this)
+    | _ => simp_all [benign, transient]
   exact (readExact_complete true maxChunk hmax n ⟨wire, script, false⟩ hb' rfl hw hp).1
 
-/-- the platform's EAGAIN (first entry of `retry_errnos`) -/
-def eagain : Nat := Gen.retryErrnos.headD 0
+/-- the platform's EAGAIN (`errno.EAGAIN`) -/
+def eagain : Nat := Gen.eagain
 
 /-- pipes (`PipeStream.read` has no retry): the clause FAILS by the letter — one would-block from `os.read`
 and the stream is closed with `EOFError`, the packet lost although its bytes were on their way.  Reachable on a
